@@ -221,7 +221,7 @@ def rules(rep, m):
             if not ok:
                 # the merged weight sum / count of a non-empty merge (the empty case returned early)
                 merged_nonempty = any(v_ >= 1 for e_, v_ in lb.items() if " + " in e_) or any(
-                    re.fullmatch(r"!\(.*count == 0\)|\(.*count != 0\)|\(.*count > 0\)", cd) for cd in conds)
+                    re.fullmatch(r"!\(.*count\)? == 0\)|\(.*count\)? != 0\)|\(.*count\)? > 0\)", cd) for cd in conds)
                 if merged_nonempty and re.search(r"wsum|count", div) and not re.search(r"count - ", div):
                     ok = True
             if ok:
@@ -297,7 +297,7 @@ def rules(rep, m):
                     r4.fail()
                 else:
                     r4.ok()
-        st = {re.sub(r"^\w+(\.|->)", "", cx.canon(l)): cx.canon(r) for l, r, k, n_ in inv.stores(f) if r is not None}
+        st = {re.sub(r"^\w+(\.|->)", "", cx.canon(l)): common.as_ternary(cx, f, r) for l, r, k, n_ in inv.stores(f) if r is not None}
         p1, p2 = f.params[1]["name"], f.params[2]["name"]
         def fld(p, x):
             return "%s->%s" % (p, x)
@@ -378,8 +378,22 @@ def rules(rep, m):
             l0 = strip(l, casts=True)
             if l0["kind"] == "MemberExpr" and k_ == "=" and r_ is not None:
                 base = fx.canon(kids(l0)[0])
-                if base == p0 or base.endswith(")" + p0) or re.sub(r"^\(.*?\)", "", base) == p0:
+                if base == p0 or base.endswith(")" + p0) or re.sub(r"^\(.*?\)", "", base) == p0 or \
+                        common.same_object(m, base, p0) or common.same_object(m, "&" + base, p0):
                     out.setdefault(l0.get("name"), []).append(r_)
+            # the whole object assigned from a constant template: every member receives the template's initialiser
+            if l0["kind"] == "UnaryOperator" and l0.get("opcode") == "*" and k_ == "=" and r_ is not None and \
+                    fx.canon(kids(l0)[0]) == p0:
+                r0 = strip(r_, casts=True)
+                if r0["kind"] == "DeclRefExpr":
+                    gk = m.global_key(f.unit, f, r0["ref"])
+                    g = m.globals.get(gk) if gk else None
+                    il = [c_ for c_ in kids(g.node) if c_["kind"] == "InitListExpr"] if g is not None and g.node is not None else []
+                    sn = re.search(r"struct (\w+)", (g.type or "")) if g is not None else None
+                    if il and sn and sn.group(1) in m.records:
+                        for (fname_, ft_, fd_), val in zip(m.records[sn.group(1)], kids(il[0])):
+                            if fname_:
+                                out.setdefault(fname_, []).append(val)
         return out
 
     def closure_stores(f, seen=None):
@@ -394,7 +408,7 @@ def rules(rep, m):
             if c["kind"] == "CallExpr" and len(kids(c)) > 1:
                 cal = m.func_named(callee_ref(c) or "")
                 a0 = fx.canon(kids(c)[1])
-                if cal and cal[0].body is not None and (a0 == p0 or re.sub(r"^\(.*?\)", "", a0) == p0):
+                if cal and cal[0].body is not None and (a0 == p0 or re.sub(r"^\(.*?\)", "", a0) == p0 or common.same_object(m, a0, p0)):
                     for k_, v_ in closure_stores(cal[0], seen).items():
                         out.setdefault(k_, []).extend(v_)
         return out
